@@ -36,7 +36,6 @@ OP_FIELDS = ("op", "as", "ap", "bs", "bp", "d", "pos", "pos2", "x", "rv", "ss")
 LINK_REASONS = {"parent-link", "root-has-parent", "dangling-link"}
 # outputs that merely follow the parent links: implied by a link reason, not part of the signature
 DERIVED_FROM_LINKS = {"to_root", "level", "iterator-visit", "const-overload"}
-TREE_SOURCES = ["c09_tree.cpp", "c09_tree_l_int.cpp", "c09_tree_l_str.cpp", "c09_tree_l_uptr.cpp", "c09_tree_l_tree.cpp"]
 OTHER_LABELS = ("str", "uptr", "tree")
 
 # (module, cfg, invariant TLC must report as violated, also run in the quick tier?)
@@ -69,12 +68,34 @@ GUARDS = (
 
 
 def build():
-    # the tree is header-only: no fcppt library sources are needed
-    return vlib.build_harness("c09_tree", TREE_SOURCES, libs=())
+    """The PRIMARY harness: label type int.  The tree is header-only: no fcppt library sources are
+    needed.  If this does not build there is no verdict (Infra, exit 2)."""
+    return vlib.build_harness("c09_tree", ["c09_tree.cpp"], libs=())
 
 
-def build_log():
-    return vlib.build_harness("c09_logtree", ["c09_logtree.cpp"], libs=("core", "log"))
+def build_secondary(ctx, name):
+    """The secondary harness binaries - the other label types and the log context's tree - are built
+    one by one.  One that does not compile against the tree under test must not block the judgement
+    of the int histories: the failure is recorded as an observation and that part is skipped."""
+    try:
+        if name == "log":
+            return vlib.build_harness("c09_logtree", ["c09_logtree.cpp"], libs=("core", "log"))
+        return vlib.build_harness("c09_tree_" + name, ["c09_tree_l_%s.cpp" % name], libs=())
+    except vlib.Infra as e:
+        msg = str(e)
+        if "compile failed" not in msg and "link failed" not in msg:
+            raise
+        first = next((l.strip() for l in msg.splitlines() if " error" in l or "error:" in l), msg.splitlines()[0])
+        unit = "c09_logtree.cpp" if name == "log" else "c09_tree_l_%s.cpp" % name
+        ctx.extra.setdefault("harness_units_skipped", []).append(
+            {"unit": unit, "first_error": first[:400]})
+        table = ctx.extra.setdefault("observations", {"events": 0, "kinds": {}})
+        table["kinds"]["C09:build:%s" % unit] = {"count_in_kept_sample": 1, "example": {
+            "source": "harness build", "lt": name, "operation": "harness TU %s does not compile: %s" % (unit, first[:300]),
+            "earlier_operations": []}}
+        print("OBSERVATION: harness TU %s does not compile against the tree under test (that part is skipped): %s" % (
+            unit, first[:300]))
+        return None
 
 
 def signature(b):
@@ -328,6 +349,11 @@ def judge_vacuity(ctx, lines, log_lines):
     e2 = copy.deepcopy(ev)
     e2["eq"][si][si] = 0
     cases.append(("comparison", True, e2))
+    e4 = copy.deepcopy(ev)
+    i0 = e4["cpn"].index((si + 1) * 1000)           # the slot's root ...
+    i1 = e4["cpn"].index((si + 1) * 1000 + deep)    # ... and a node at level >= 2: not its child
+    e4["cpall"][i0][i1] = 0
+    cases.append(("child_position", True, e4))
     e3 = copy.deepcopy(ev)
     e3["ret"] = 1234 if e3["ret"] == -1 else -1
     cases.append(("returned-reference", False, e3))
@@ -458,7 +484,8 @@ def run(ctx):
     lpath = os.path.join(ctx.workdir, "scripts_log.ndjson")
     vlib.write_ndjson(lpath, lscripts)
     binary = build()
-    logbin = build_log()
+    secondary = dict(zip(OTHER_LABELS + ("log",), vlib.parallel(lambda n: build_secondary(ctx, n), OTHER_LABELS + ("log",), workers=4)))
+    logbin = secondary["log"]
     # 4. spec -> code, label type int
     rpath = os.path.join(ctx.workdir, "replayed.ndjson")
     rc, out = vlib.run_harness(binary, ["replay", spath, rpath, "int"], timeout=1500)
@@ -484,11 +511,13 @@ def run(ctx):
     nh2 = 300 if thorough else 50
     runs = []
     for k, lt in enumerate(OTHER_LABELS):
-        runs.append((binary, ["replay", apath, os.path.join(ctx.workdir, "replayed_%s.ndjson" % lt), lt, stride,
+        if secondary[lt] is None:
+            continue
+        runs.append((secondary[lt], ["replay", apath, os.path.join(ctx.workdir, "replayed_%s.ndjson" % lt), lt, stride,
                               (ctx.seed + k) % stride], "TLC-generated script, label type " + lt))
-        runs.append((binary, ["record", os.path.join(ctx.workdir, "recorded_%s.ndjson" % lt), ctx.seed + 100 + k, nh2, ml, 1, lt],
+        runs.append((secondary[lt], ["record", os.path.join(ctx.workdir, "recorded_%s.ndjson" % lt), ctx.seed + 100 + k, nh2, ml, 1, lt],
                      "random history, label type " + lt))
-    ls = run_group(ctx, runs, os.path.join(ctx.workdir, "labels.ndjson"), "label types str/uptr/tree")
+    ls = run_group(ctx, runs, os.path.join(ctx.workdir, "labels.ndjson"), "label types str/uptr/tree") if runs else []
     for lt in OTHER_LABELS:
         n = sum(1 for x in ls if '"e":"reset"' in x and '"lt":"%s"' % lt in x)
         ctx.traces_validated += n
@@ -498,7 +527,7 @@ def run(ctx):
     # 7. the log context's use of the tree
     lstride = 30 if thorough else 100
     nh3 = 600 if thorough else 100
-    log_lines = run_group(ctx, [
+    log_lines = [] if logbin is None else run_group(ctx, [
         (logbin, ["replay", lpath, os.path.join(ctx.workdir, "replayed_log.ndjson"), lstride, ctx.seed % lstride], "TLC-generated log script"),
         (logbin, ["record", os.path.join(ctx.workdir, "recorded_log.ndjson"), ctx.seed, nh3, 20], "random log history"),
     ], os.path.join(ctx.workdir, "log.ndjson"), "log context")
@@ -510,7 +539,8 @@ def run(ctx):
         ev = json.loads(next(x for x in log_lines if '"op":"log_create"' in x))
         ctx.sample({"log_event": {k: ev[k] for k in ("op", "ss", "x", "ret", "get", "olvl", "ofmt")}})
     # 8. the judge can fail: corrupted copies of accepted histories must be rejected / observed
-    if not ctx.violations and not ctx.known_hits and not ctx.extra.get("observations", {}).get("events"):
+    obs0 = ctx.extra.get("observations", {})
+    if not ctx.violations and not ctx.known_hits and not obs0.get("events") and not obs0.get("kinds") and log_lines:
         judge_vacuity(ctx, int_lines[:60000], log_lines[:20000])
     # observations: outside the statement of C09 - reported, never a VIOLATION
     obs = ctx.extra.get("observations")
@@ -518,6 +548,8 @@ def run(ctx):
         by_reason = {}
         for key, k in sorted(obs["kinds"].items()):
             _, op, why = key.split(":", 2)
+            if op == "build":
+                continue
             by_reason.setdefault(why, []).append((op, k))
         print("OBSERVATIONS: %d event(s) disagree with the specification OUTSIDE the statement of C09 "
               "(no verdict; details in evidence coverage.observations)" % obs["events"])
@@ -548,10 +580,13 @@ def replay(ctx, payload):
     spath = os.path.join(ctx.workdir, "replay_script.ndjson")
     vlib.write_ndjson(spath, [pl["script"]])
     rpath = os.path.join(ctx.workdir, "replay_out.ndjson")
+    binary = build() if lt == "int" else build_secondary(ctx, lt)
+    if binary is None:
+        raise vlib.Infra("the harness for label type %s does not compile against this tree" % lt)
     if lt == "log":
-        rc, out = vlib.run_harness(build_log(), ["replay", spath, rpath], timeout=600)
+        rc, out = vlib.run_harness(binary, ["replay", spath, rpath], timeout=600)
     else:
-        rc, out = vlib.run_harness(build(), ["replay", spath, rpath, lt], timeout=600)
+        rc, out = vlib.run_harness(binary, ["replay", spath, rpath, lt], timeout=600)
     judge_file(ctx, rpath, "replay", rc, out)
     ctx.traces_validated += 1
     ctx.count_class("replay")
